@@ -161,6 +161,68 @@ def h_par_ecl(ctx):
     ctx.vc("topocentric longitude in [0, 360)", and_(ctx.field(out[0], "_deg") >= 0, ctx.field(out[0], "_deg") < 360))
 
 
+def _par_cuts():
+    def grab(which):
+        def cut(it, frame):
+            it.info.setdefault("par", {})[which] = Num.of(frame.locals[which])
+            return True
+        return cut
+    F = "Earth.parallax_ecliptical"
+    return {(F, k, 1): grab(k) for k in ("sin_pi", "rho_sinphi", "rho_cosphi", "n")}
+
+
+@P.harness("parallax_ecliptical/direction", contracts=lambda: {ANGLE + ".reduce_deg": contract_reduce_deg,
+                                                              ANGLE + ".dms2deg": contract_dms2deg},
+           cuts=_par_cuts, axioms=("pi", "inverse-range", "trig-range"), functions=[EARTH + ".parallax_ecliptical"], crosscheck=0,
+           timeout=60, branch_timeout_ms=300)
+def h_par_dir(ctx):
+    """the returned direction is the geocentric unit vector minus sin(parallax) times the observer's geocentric vector
+    (rho cos phi' cos theta, rho cos phi' sin theta, rho sin phi') turned into the ecliptic frame (Meeus 40.6/40.7):
+    longitude == atan2(Y, N) mod 360, latitude == atan2(cos(longitude') Z, N) up to whole half turns (same tangent; with
+    |latitude| <= 90 from the range harness that is atan(cos(longitude') Z / N)), for the (N, Y, Z) of that vector"""
+    from pyvc.api import atan2_
+    from specs.rotations import unitvec, rot_x, matvec
+    if ctx.native:
+        return
+
+    def ang(name, lo, hi):
+        v = ctx.real(name, lo, hi)
+        o = ctx.obj("Angle")
+        ctx.setfield(o, "_deg", v)
+        ctx.setfield(o, "_tol", TOL)
+        return o, v
+    lon, lonv = ang("lon", 0, 359)
+    lat, latv = ang("lat", -89, 89)
+    semi, _ = ang("semi", 0, 1)
+    olat, _ = ang("obs_lat", -90, 90)
+    obl, oblv = ang("obl", 20, 26)
+    sid, sidv = ang("sid", 0, 359)
+    dist = ctx.real("dist", Fraction(1, 1000), 1000)
+    try:
+        out = ctx.call(EARTH + ".parallax_ecliptical", lon, lat, semi, olat, obl, sid, dist)
+    except PyRaise as ex:
+        return
+    par = ctx.it.info["par"]
+    sp, rs, rc = par["sin_pi"], par["rho_sinphi"], par["rho_cosphi"]
+    th = radians_(sidv)
+    obs_equ = (rc * cos_(th), rc * sin_(th), rs)
+    obs_ecl = matvec(rot_x(radians_(oblv)), obs_equ)
+    u = unitvec(lonv, latv)
+    N, Y, Z = (u[i] - sp * obs_ecl[i] for i in range(3))
+    (A1, N1), (A2, N2) = ctx.uf_terms("atan2")[:2]
+    ctx.identity("denominator N == x of (unit vector - sin(pi) observer)", N1, N)
+    ctx.identity("longitude numerator == y of that vector", A1, Y)
+    ctx.identity("same denominator in the latitude", N2, N1)
+    tlon, tlat = ctx.field(out[0], "_deg"), ctx.field(out[1], "_deg")
+    ctx.identity("latitude numerator == cos(longitude') z of that vector", A2, cos_(radians_(tlon)) * Z)
+    T1 = atan2_(A1, N1) * 180 / pi_()
+    T2 = atan2_(A2, N2) * 180 / pi_()
+    k1 = (tlon - T1) / 360
+    ctx.vc("longitude' == atan2(Y, N) (mod 360)", or_(k1 == 0, k1 == 1))
+    k2 = (tlat - T2) / 180
+    ctx.vc("latitude' == atan2(cos(longitude') Z, N) up to whole half turns (same tangent)", or_(k2 == 0, k2 == 1, k2 == -1))
+
+
 # ---- bounded
 @P.bounded_check("float/ellipsoid-distance-parallax", grid="latitudes -90..90 incl. poles/equator, heights -500..9000 m, both "
                  "built-in ellipsoids; point pairs incl. coincident, antipodal, same-meridian, equatorial; parallax for "
